@@ -304,6 +304,11 @@ def main(ctx):
         for model in ("inf2", "nan2", "huge2"):
             for loss in ("fourier", "msm", "likelihood"):
                 cells.append({"cfg": {"lineup": lu, "model": model, "ensemble": 2, "seed": S, "dims": 2, "loss": loss}, "seqs": [[2, 1, 1]]})
+    # losses far BELOW zero (a negated score): beyond float32 on the negative side only - recorded rows must stay what the loss returned
+    for second in C.ALL_SAMPLERS:
+        lu = [{"cls": "Halton", "bs": 3}, {"cls": second, "bs": 2}]
+        for model in ("huge2", "gauss2"):
+            cells.append({"cfg": {"lineup": lu, "model": model, "ensemble": 2, "seed": S, "dims": 2, "loss": "neg_minkowski"}, "seqs": [[1, 1, 1, 1], [2, 2]]})
     # a search space that is not the unit box, particle swarm attracted by the global minimum across samplers
     for first in ("Halton", "RandomUniform"):
         for opts in ({"global_minimum_across_samplers": True}, {}):
